@@ -105,5 +105,9 @@ Linear == m.alloc <= 2 * m.pos
 LengthsReadExactly == \A i \in 1..Len(m.log) : LET e == m.log[i] IN
       e.len = (IF e.nl = 1 THEN input[e.pos] ELSE IF e.nl = 2 THEN input[e.pos - 1] * 256 + input[e.pos]
                ELSE input[e.pos - 2] * 65536 + input[e.pos - 1] * 256 + input[e.pos])
+\* C07 on measured runs: total bytes allocated while decoding an input of n bytes stay below a fixed
+\* linear function (kilobytes; honest inputs need about 0.5 KB per input byte - every 3-byte <U1 x> of a
+\* list becomes a node with its own slice and map)
+AllocBoundKB(n) == 4 * n + 64
 Progress == [][m'.pos >= m.pos /\ (m'.pos > m.pos \/ Rank(m'.st) < Rank(m.st) \/ Len(m'.stack) > Len(m.stack) \/ Final(m'))]_vars
 =====================================================================
